@@ -61,7 +61,36 @@ func bgvBinKinds() []Kind {
 		}
 		return v
 	}
-	return []Kind{
+	// *big.Int value alphabet, t = 97: one value on each side of every branch of the scalar normalisation
+	// (reduction mod t only when outside [0,t), centring only above t/2, scale multiplication), each with the
+	// inputs-intact oracle on the big.Int itself (words and sign)
+	bigAlphabet := func() []Kind {
+		vals := []struct {
+			n string
+			v func() *big.Int
+		}{
+			{"0", func() *big.Int { return big.NewInt(0) }}, {"1", func() *big.Int { return big.NewInt(1) }},
+			{"t/2", func() *big.Int { return big.NewInt(48) }}, {"t/2+1", func() *big.Int { return big.NewInt(49) }},
+			{"t-1", func() *big.Int { return big.NewInt(96) }}, {"t", func() *big.Int { return big.NewInt(97) }},
+			{"t+5", func() *big.Int { return big.NewInt(102) }}, {"3t-1", func() *big.Int { return big.NewInt(290) }},
+			{"-1", func() *big.Int { return big.NewInt(-1) }}, {"-t/2-1", func() *big.Int { return big.NewInt(-49) }},
+			{"-2^64-3", func() *big.Int { x := new(big.Int).Lsh(big.NewInt(1), 64); x.Add(x, big.NewInt(3)); return x.Neg(x) }},
+			{"2^130+60", func() *big.Int { x := new(big.Int).Lsh(big.NewInt(1), 130); return x.Add(x, big.NewInt(60)) }},
+		}
+		var r []Kind
+		for i, val := range vals {
+			val := val
+			s0 := uint64(0)
+			if i%2 == 1 {
+				s0 = 5
+			}
+			k := mk("ct1-bigint="+val.n, 1, 0, s0, func(*Env, *Gen) interface{} { return val.v() })
+			k.Class, k.Light = "bigint", true
+			r = append(r, k)
+		}
+		return r
+	}()
+	return append([]Kind{
 		// ciphertext x ciphertext: every (degree of op0, degree of op1) in {1,2}^2 crossed with equal / different
 		// scales (the scale-matching path is a different function), the level relation varying along the list;
 		// each kind is then crossed with every aliasing pattern (out fresh, out==op0, out==op1, op0==op1, all equal)
@@ -89,7 +118,7 @@ func bgvBinKinds() []Kind {
 		mk("ct1-int", 1, 0, 5, func(*Env, *Gen) interface{} { return int(96) }),
 		mk("ct1-[]uint64", 1, 0, 5, vecU),
 		mk("ct2-[]int64", 2, -1, 5, vecI),
-	}
+	}, bigAlphabet...)
 }
 
 // coarse operand classes used in signatures: the kind of op1, and whether scales / degrees differ
